@@ -565,6 +565,9 @@ def coverage_goals(ctx, agg):
 
 def replay(rec):
     case = rec.get("case") or {}
+    if "derivation" in case:
+        from mc import purity
+        return set(purity.unit_purity(("purity", case["operand"], case["form"], case.get("second_operand"), "full", case["derivation"])).viol)
     if "history" not in case:
         return None
     hist = tuple(tuple(e) for e in case["history"])
